@@ -273,24 +273,28 @@ OPEN: join_eventually   (liveness under weak fairness, full model of the repaire
       (σ : Nat → Tid) (run : Nat → State) (h0 : run 0 = State.init cfg)
       (hstep : ∀ n, (∃ o, step (run n) (σ n) = some (run (n+1), o)) ∨ (step (run n) (σ n) = none ∧ run (n+1) = run n))
       (hfair : ∀ t n, (∀ m ≥ n, enabled (run m) t = true) → ∃ m ≥ n, σ m = t) :
-      ∀ n t f, topFrame (run n) t = some (.join f) → ∃ m ≥ n, topFrame (run m) t ≠ some (.join f) ∧
-                 (∀ k, n ≤ k → k < m → True) ∧ (joining thread has left join(): its stack below `join f` is on top)
+      ∀ n t f, topFrame (run n) t = some (.join f) → ∃ m ≥ n, topFrame (run m) t ≠ some (.join f)
+         -- (more precisely: the thread has left join(): the frame below `join f` is on top)
 
-  and its deadlock-freedom core
-  theorem no_stuck (hrep : cfg.repaired = true) (h : Reach cfg s) (hl : ∃ t th, s.threads t = some th ∧ th.finished = false) :
-      ∃ t, enabled s t = true
+  and the unconditional deadlock-freedom core
+  theorem no_stuck (hrep : cfg.repaired = true) (hwf : cfg.WellFormed) (h : Reach cfg s)
+      (hl : ∃ t th, s.threads t = some th ∧ th.finished = false) : ∃ t, enabled s t = true
 
-  Proved instead (this file): `no_stuck_worker_side` (full model: a queued job + a live worker ⇒ some thread can step),
-  `no_stuck_producer_side` when present (a free slot + a sleeper on the dequeued signal + a live worker ⇒ some thread can
-  step), the Signal-level progress lemmas of Progress.lean, the abstract-protocol theorems `fastsignal_set_not_lost`,
-  `no_stuck_protocol` for any number of threads, and the negation witnesses for the original code.
-  Missing for `no_stuck`: that a queued job always has or gets a worker (the spawn / retire arithmetic over
-  `_pushedJobs`, `_processedJobs`, `_threadCount` with stale reads), the main thread's shutdown accounting
-  (`_threadCount` terminate jobs reach exactly the live workers) and the join side (an uncompleted call is queued,
-  held by a popper or being executed).  Missing for `join_eventually` beyond `no_stuck`: a ranking argument under
-  fairness (CAS retry loops and the spin lock are lock-free, not wait-free).
-  Evidence that is NOT a proof: no deadlock in any controlled-scheduler run of the real code and none in the exhaustive
-  micro-step exploration of the model for the small configurations listed in the evidence file.
+  PROVED of it (this file, full model, every schedule, any number of threads, any capacity):
+    `no_stuck_while_a_worker_lives` — `no_stuck` in every state in which some worker thread is alive — composed of
+    `no_stuck_worker_side`, `no_stuck_producer_side`, `no_stuck_join_side`, `no_stuck_shutdown_side`,
+    `signal_layer_progress`, `deadlock_shape`; `started_call_is_never_lost` (token conservation).
+  MISSING for `no_stuck`: the states without a live worker.  There every blocked thread reduces (by the proved sides) to
+    "a job is queued, no worker is alive, no thread is enabled"; excluding it needs (i) the spawn arithmetic of
+    `ThreadPool::run` over `_pushedJobs`, `_processedJobs`, `_threadCount` with their stale reads together with the FIFO
+    order of the ring (a queued call is ahead of the terminate jobs of later retire decisions), and (ii) the equality form
+    of the terminate-job balance (LiveShutdown proves the direction `≤` that deadlock freedom at `dJoin` needs).
+  MISSING for `join_eventually` beyond `no_stuck`: a ranking argument under weak fairness (the CAS retry loops and the
+    spin lock of the lazily created pool are lock-free, not wait-free) and that the body and the clients' scripts are
+    finite (they are, in the model).
+  Evidence that is NOT a proof: no deadlock in any controlled-scheduler run of the real code, none in the exhaustive
+  micro-step exploration of the model for the small configurations listed in the evidence file, none in the random
+  micro-step walks of the model (3-4 clients, retire clock); negation witnesses for the ORIGINAL code are theorems above.
 -/
 
 end Nstd.Future.C10
